@@ -449,6 +449,29 @@ class SNum(object):
         return 'SNum(%s)' % (self.t,)
 
     # ---- numpy override protocol ---------------------------------------------------
+    # numpy applies np.cos / np.sin / ... to an OBJECT array by calling the method of that name on every element
+    def cos(self):
+        from . import ops
+        return ops.scos(self)
+
+    def sin(self):
+        from . import ops
+        return ops.ssin(self)
+
+    def exp(self):
+        from . import ops
+        return ops.sexp(self)
+
+    def sqrt(self):
+        from . import ops
+        return ops.ssqrt(self)
+
+    def fabs(self):
+        return abs(self)
+
+    def conjugate(self):
+        return self
+
     def __array_ufunc__(self, ufunc, method, *inputs, **kwargs):
         from . import ops
         if method != '__call__' or kwargs.get('out') is not None:
